@@ -842,8 +842,9 @@ PARENT_TABLE = {
 }
 
 
-def _isinstance_kinds(e, subject: str):
-    if isinstance(e, ast.Call) and norm(e.func) == "isinstance" and len(e.args) == 2 and norm(e.args[0]) == subject:
+def _isinstance_kinds(e, subject):
+    """the classes of `isinstance(<subject>, K)`; subject None = whatever plain variable is tested"""
+    if isinstance(e, ast.Call) and norm(e.func) == "isinstance" and len(e.args) == 2 and (norm(e.args[0]) == subject or (subject is None and isinstance(e.args[0], ast.Name))):
         t = e.args[1]
         return [x.attr if isinstance(x, ast.Attribute) else x.id for x in (t.elts if isinstance(t, ast.Tuple) else [t]) if isinstance(x, (ast.Name, ast.Attribute))]
     return None
@@ -934,7 +935,7 @@ def apply_routing(repo: Repo, rep):
         gsu = []
         for e in exprs:
             for x in ast.walk(e):
-                ik = _isinstance_kinds(x, "change")
+                ik = _isinstance_kinds(x, None)  # the comprehension variable over the grouped changes, whatever it is called
                 if ik:
                     used_kinds |= set(ik) & insert_kinds
                 if isinstance(x, ast.Call) and norm(x.func).endswith("generic_sequence_update") and x not in gsu:
